@@ -7,7 +7,7 @@ COQ_TARGETS = ["Corr/Run_C20.vo", "Proofs/KeystoreProofs.vo", "Proofs/ResetKeyst
 N = {"quick": 300, "thorough": 9000}
 RULE = ("two kinds of cases. plain (2 of 3): random histories of 3-60 operations on the real keystore over a recording, "
         "fault-injecting datastore: put/delete (1-6 keys, 4% with a repeated key)/empty, each with a 12% chance of one failing "
-        "Has/Commit/Sync, get/count/contains with prefixes of 0-16 bits around clustered keys (prefixBits 0/8/16, batch size 1-5 or 64), "
+        "Has/Commit/Sync, get/count/contains with prefixes of 0-16 bits around clustered keys or (one in eight) the complete 256-bit identifier of a pool key (prefixBits 0/8/16, batch size 1-5 or 64), "
         "clean restarts, and crashes cutting the journal anywhere inside the last operation; non-trivial when a branch among "
         "put-some-new / long-prefix hit or miss / count capped / multi-batch empty / fault hit / restart / crash losing writes is reached. "
         "reset (1 of 3): the real ResettableKeystore inside a testing/synctest bubble, every datastore call made on behalf of ResetCids "
